@@ -4,8 +4,12 @@
     on one manager.  Here:
     - [Driver.op] additionally with [find_or_add] (caller obligation: the
       level is above both children), [copy_bdd] from any manager of the world,
-      [image]/[preimage] with any arguments, and the harness setters
-      [OSetRoots], [OTape], [OSetTrig], [OSetLastLen None];
+      [image]/[preimage] with any arguments, the harness setters
+      [OSetRoots], [OTape], [OSetTrig], [OSetLastLen None], and the node
+      limit [OSetMaxNodes] ([bdd.max_nodes = n], any value: with a full table
+      a call that needs a new node fails with [ERuntime] ([RuntimeError]);
+      that outcome is covered like any other failure, see
+      [C17b_full_table]);
     - [Driver2.op2]: [count], [pick_iter], [pick], [descendants], [succ],
       [level_of_var], [var_at_level], [len], [__contains__], [to_nx],
       [_to_dot], the two pickle dumps (all read-only on the manager),
@@ -28,7 +32,7 @@ Theorem C17b_allowed1_unfold o :
   allowed1 o = allowed o ||
   match o with
   | OFindOrAdd _ _ _ | OCopy _ _ | OImage _ _ _ _ _ _ _ | OPreimage _ _ _ _ _ _ _
-  | OSetRoots _ | OTape _ | OSetTrig _ => true
+  | OSetRoots _ | OTape _ | OSetTrig _ | OSetMaxNodes _ => true
   | OSetLastLen l => bool_decide (l = None)
   | _ => false
   end.
@@ -272,6 +276,33 @@ Example C17b_after_undeclare :
      (4%positive, (0, (-1)%Z, 3%Z)); (3%positive, (1, (-1)%Z, 1%Z))].
 Proof. by vm_compute. Qed.
 
+(** the node limit: manager 0 of [wA] has the nodes 1..4; with
+    [max_nodes = 5] the table is full: [var(v1)] and [x | z] need a new node
+    and fail with [RuntimeError], [x & z] is found in the table; the failing
+    calls leave every table as it was; without the limit [var(v1)] succeeds.
+    The history satisfies the hypotheses of [C17b_history2_good]. *)
+Definition full : list (nat * op2) :=
+  [(0, O1 (OSetMaxNodes (Some 5%positive)));
+   (0, O1 (OVar 1)); (0, O1 (OApply "or" 2 (Some 3%Z) None));
+   (0, O1 (OApply "and" 2 (Some 3%Z) None));
+   (0, O1 (OSetMaxNodes None)); (0, O1 (OVar 1))].
+
+Example C17b_full_table :
+  hist_ok2 world2_empty (h0 ++ full) ∧
+  (fix go w l := match l with
+                 | [] => []
+                 | (m, o) :: l => snd (step2 w m o) :: go (fst (step2 w m o)) l
+                 end) wA full =
+  [Ok VU; Err ERuntime; Err ERuntime; Ok (VZ 4); Ok VU; Ok (VZ 5)] ∧
+  digest (world2_get (run2 wA (take 4 full)) 0) =
+  digest (world2_get (run2 wA (take 1 full)) 0).
+Proof.
+  split; [|by vm_compute]. cbn [h0 full app hist_ok2]. repeat hist_step. exact I.
+Qed.
+
+Example C17b_full_table_good : WGood (run2 world2_empty (h0 ++ full)).
+Proof. exact (history2_from_empty _ (proj1 C17b_full_table)). Qed.
+
 Print Assumptions C17b_run_op2_good.
 Print Assumptions C17b_run_op2_err.
 Print Assumptions C17b_step2_good.
@@ -281,3 +312,4 @@ Print Assumptions C17b_history2_from_empty.
 Print Assumptions C17b_load_junk_refuted.
 Print Assumptions C17b_history_good.
 Print Assumptions C17b_then_success.
+Print Assumptions C17b_full_table_good.
